@@ -14,7 +14,7 @@ theorem sortCmp_eq (x y : PList) : ∀ spec : PList, sortCmp x y spec = refOrder
   | .nil => rfl
   | .cons field o rest => by
     simp only [sortCmp, refOrder, sortCmp_eq x y rest]
-    have h1 : orderOf o = refDirection o := by cases o <;> rfl
+    have h1 : orderOf o = refDirection o := rfl
     rw [h1]
     rfl
 
@@ -84,15 +84,15 @@ theorem OrderedBy_insertDoc {spec : PList} (hd : directed spec = true) (d : PLis
     rw [List.pairwise_cons] at h
     simp only [insertDoc]
     split
-    · next hlt =>
-      rw [sortCmp_eq] at hlt
+    · next hle =>
+      rw [sortCmp_eq] at hle
       rw [List.pairwise_cons]
       refine ⟨fun y hy => ?_, List.pairwise_cons.mpr h⟩
       rcases List.mem_cons.mp hy with rfl | hy
-      · omega
-      · exact (refOrder_T3 d e y spec hd).1 (by omega) (h.1 y hy)
-    · next hge =>
-      rw [sortCmp_eq] at hge
+      · exact hle
+      · exact (refOrder_T3 d e y spec hd).1 hle (h.1 y hy)
+    · next hgt =>
+      rw [sortCmp_eq] at hgt
       rw [List.pairwise_cons]
       refine ⟨fun y hy => ?_, OrderedBy_insertDoc hd d h.2⟩
       rcases mem_insertDoc hy with rfl | hy
